@@ -480,3 +480,23 @@ package http
 //@   ghost update @?sql.Process: rwT = arg2
 //@   ghost update @?sql.Process: rwS = arg0
 //@   assert @s.proxy.Execute: [rewritten-before-replication] arg1 != nil && arg1.Request != nil && (qpFlag(qp, "noparse") || (rw && rwR == !qpFlag(qp, "norwrandom") && rwT == !qpFlag(qp, "norwtime") && arg1.Request.Statements == rwS))
+//
+// ---- C30: request parameters keep their type and value ------------------------------------------------
+// makeParameter: a JSON number that fits int64 becomes the integer parameter with that value
+// (json.Number.Int64 is exact), any other number the float; booleans, byte slices and text are
+// carried over unchanged; text is turned into a blob only when it parses as a hex literal; an
+// array of byte-sized integers becomes a blob of the same length; null stays null; the name is
+// always the one given.
+//@ func makeParameter
+//@   safe
+//@   assert @return#2: [int] result1 == nil && result0 != nil && result0.Name == name && typeis(result0.Value, "*rq/command/proto.Parameter_I") && as(result0.Value, "*rq/command/proto.Parameter_I").I == v
+//@   assert @return#3: [int64] result1 == nil && result0 != nil && result0.Name == name && typeis(result0.Value, "*rq/command/proto.Parameter_I") && as(result0.Value, "*rq/command/proto.Parameter_I").I == v
+//@   assert @return#4: [float] result1 == nil && result0 != nil && result0.Name == name && typeis(result0.Value, "*rq/command/proto.Parameter_D") && as(result0.Value, "*rq/command/proto.Parameter_D").D == v
+//@   assert @return#5: [bool] result1 == nil && result0 != nil && result0.Name == name && typeis(result0.Value, "*rq/command/proto.Parameter_B") && as(result0.Value, "*rq/command/proto.Parameter_B").B == v
+//@   assert @return#6: [bytes] result1 == nil && result0 != nil && result0.Name == name && typeis(result0.Value, "*rq/command/proto.Parameter_Y") && as(result0.Value, "*rq/command/proto.Parameter_Y").Y == v
+//@   assert @return#7: [text-unchanged] result1 == nil && result0 != nil && result0.Name == name && typeis(result0.Value, "*rq/command/proto.Parameter_S") && as(result0.Value, "*rq/command/proto.Parameter_S").S == v
+//@   assert @return#8: [hex-literal-as-blob] result1 == nil && result0 != nil && result0.Name == name && typeis(result0.Value, "*rq/command/proto.Parameter_Y") && as(result0.Value, "*rq/command/proto.Parameter_Y").Y == b
+//@   assert @return#12: [byte-array-as-blob] result1 == nil && result0 != nil && result0.Name == name && typeis(result0.Value, "*rq/command/proto.Parameter_Y") && as(result0.Value, "*rq/command/proto.Parameter_Y").Y == b && len(b) == len(v)
+//@   assert @return#13: [null] result1 == nil && result0 != nil && result0.Name == name && result0.Value == nil
+//@   assert @return#14: [unsupported-is-an-error] result1 != nil
+//@   loop 1 invariant [len] len(b) == len(v)
